@@ -18,7 +18,7 @@ HARNESS = os.path.join(VERIF, 'harness')
 DRV = os.path.join(VERIF, 'drvmux')          # routes each request to its component's driver executable
 DRV_EXES = ['drv', 'drv_walk', 'drv_print', 'drv_cli', 'drv_boxp', 'drv_stream', 'drv_time']
 # which driver executables a property's check needs (all are built; only these can break it)
-DRV_NEEDED = {'C02': ['drv', 'drv_print'], 'C12': ['drv', 'drv_boxp'], 'C04': ['drv_time'], 'C05': ['drv_stream'], 'C11': ['drv_time'], 'C13': ['drv_print'], 'C14': ['drv_cli'],
+DRV_NEEDED = {'C02': ['drv', 'drv_print'], 'C12': ['drv', 'drv_boxp', 'drv_print'], 'C04': ['drv_time'], 'C05': ['drv_stream'], 'C11': ['drv_time'], 'C13': ['drv_print'], 'C14': ['drv_cli'],
               'C15': ['drv_walk'], 'C17': ['drv_stream'], 'C19': ['drv_print']}
 S4H = os.path.join(TARGET, 'release', 's4h')
 S4 = os.path.join(TARGET, 'release', 's4')
